@@ -205,6 +205,7 @@ func runC04(c *Ctx) {
 	c.timeThresholds()
 	c.asn1WriterRules()
 	c04Extras3(c)
+	digitArgsRule(c)
 
 	// ---------------- R-FRESH (round 2): per-entry values are not built in a buffer shared across loop iterations
 	c.FreshObligations(fileScope(w, []string{pkg + ".CreateCertificate"}, "x509/x509.go"), "certificate creation")
